@@ -64,6 +64,7 @@ var basicByName = map[string]types.Type{
 	"uint": types.Typ[types.Uint], "uint8": types.Typ[types.Uint8], "byte": types.Typ[types.Uint8],
 	"uint16": types.Typ[types.Uint16], "uint32": types.Typ[types.Uint32], "uint64": types.Typ[types.Uint64],
 	"bool": types.Typ[types.Bool], "string": types.Typ[types.String],
+	"error": types.Universe.Lookup("error").Type(),
 }
 
 func (c *EvalCtx) typeByName(n string) types.Type {
@@ -594,6 +595,28 @@ func (c *EvalCtx) field(e *Expr) TV {
 	if c.err != nil {
 		return base
 	}
+	if strings.HasPrefix(e.Name, "$") {
+		g, ok := x.eng.specs.Ghosts["."+e.Name[1:]]
+		if !ok {
+			return c.fail("unknown ghost field %s", e.Name)
+		}
+		gt := c.typeByName(g.Type)
+		var r *Term
+		switch bv := base.V.(type) {
+		case StructV:
+			r = bv.Ref
+		case *Term:
+			r = bv
+		default:
+			return c.fail("ghost field of %T", base.V)
+		}
+		m := x.heapGet(c.cur.heap, "H.$."+g.Name, ArraySort(IntSort, x.sortOf(gt)))
+		v := x.sel(m, r)
+		if !mentionsBound(v) {
+			x.axiom(x.typeInv(v, gt, nil))
+		}
+		return TV{V: v, T: gt}
+	}
 	var ref *Term
 	var h *Heap
 	var st types.Type
@@ -794,6 +817,43 @@ func (c *EvalCtx) callExpr(e *Expr) TV {
 			return TV{V: sv.Off, T: types.Typ[types.Int]}
 		}
 		return c.fail("off() of non-slice")
+	}
+	if name == "elems" {
+		v := c.eval(args[0])
+		sv, ok := v.V.(SliceV)
+		if !ok {
+			return c.fail("elems() of non-slice")
+		}
+		et := v.T.Underlying().(*types.Slice).Elem()
+		m := x.heapGet(c.cur.heap, "E."+elemKey(et), x.contentsSort(et))
+		return TV{V: x.sel(m, sv.Arr), T: types.NewArray(et, 1<<40)}
+	}
+	if strings.HasPrefix(name, "uf_") || strings.HasPrefix(name, "ufb_") {
+		var ts []*Term
+		for _, a := range args {
+			v := c.eval(a)
+			if sv, ok := v.V.(SliceV); ok {
+				ts = append(ts, sv.Arr, sv.Off, sv.Len)
+				continue
+			}
+			ts = append(ts, c.mat(v, v.T))
+		}
+		if strings.HasPrefix(name, "ufb_") {
+			return TV{V: tb.UF(name, BoolSort, ts...), T: boolT}
+		}
+		rt := types.Typ[types.Int]
+		if strings.HasPrefix(name, "uf_u32_") {
+			rt = types.Typ[types.Uint32]
+		} else if strings.HasPrefix(name, "uf_u64_") {
+			rt = types.Typ[types.Uint64]
+		} else if strings.HasPrefix(name, "uf_u8_") {
+			rt = types.Typ[types.Uint8]
+		}
+		r := tb.UF(name, x.sortOf(rt), ts...)
+		if !mentionsBound(r) {
+			x.axiom(x.typeInv(r, rt, nil))
+		}
+		return TV{V: r, T: rt}
 	}
 	// type conversion
 	if t := c.typeByName(name); t != nil && len(args) == 1 {
